@@ -234,7 +234,7 @@ fn main() {
             let (lines, cases) = rec_kkt::record_solves(args.num("seed", 1), args.num("count", 300) as usize);
             write_lines(&args.get("out", "kktsolve.ndjson"), &lines);
             write_lines(&args.get("cases", "kktsolve.cases.ndjson"), &cases);
-            let steps: usize = lines.iter().map(|l| l["steps"].as_array().map(|a| a.len()).unwrap_or(0)).sum();
+            let steps: usize = lines.iter().map(|l| l.get("steps").and_then(|x| x.as_array()).map(|a| a.len()).unwrap_or(0)).sum();
             let count = |f: &dyn Fn(&Value) -> bool| lines.iter().filter(|l| f(l)).count();
             println!("{}", json!({"solves": lines.len(), "refinement_steps": steps, "converged": count(&|l| l["converged"] == true),
                 "stalled": count(&|l| l["steps"].as_array().map(|a| a.last().map(|s| s["brk"] == true).unwrap_or(false)).unwrap_or(false)),
@@ -576,14 +576,23 @@ fn cmd_faults(args: &Args) {
         p.settings = gen::random_settings(&mut rng, p.is_symmetric());
         if let Some(m) = p.settings.as_object_mut() { if rng.gen::<f64>() < 0.7 { m.remove("max_iter"); } }
         let mut script = vec![];
-        for _ in 0..rng.gen_range(1..=3) {
+        let many = run % 10 == 9;
+        if many {
+            // long cone lists of one kind, solved verbosely (into a buffer): the banner has to cope with any number of cones
+            let k = rng.gen_range(6..=12);
+            let kind = rng.gen_range(0..3);
+            let cones: Vec<problem::ConeSpec> = (0..k).map(|_| match kind { 0 => problem::ConeSpec::Soc(rng.gen_range(2..=3)), 1 => problem::ConeSpec::Zero(1), _ => problem::ConeSpec::Exp }).collect();
+            p = gen::planted_with_cones(&mut rng, &gen::GenOpts::default(), 3, cones);
+            p.tag.push_str("+print");
+        }
+        for _ in 0..if many { 0 } else { rng.gen_range(1..=3) } {
             let pt = ["scale", "kkt", "affine", "combined", "alpha", "alpha"][rng.gen_range(0..6)];
             let k = rng.gen_range(0..7u32);
             let v = if pt == "alpha" { [0.0, 1e-9, 1e-5, 1e-3, 0.3][rng.gen_range(0..5)] } else { 1.0 };
             *points.entry(pt.to_string()).or_default() += 1;
             script.push((pt.to_string(), k, v));
         }
-        let opts = rec_ipm::RunOpts { script: script.clone(), ..Default::default() };
+        let opts = rec_ipm::RunOpts { script: script.clone(), capture_print: many, ..Default::default() };
         let out = rec_ipm::run_ipm(run, &p, &opts);
         cases.push(json!({"run": run, "problem": p, "script": script}));
         match (&out.result, &out.panic) {
